@@ -126,9 +126,13 @@ class C07(Check):
             opts["nodiscard"] = 1
         return {"cfg": cfg, "opts": opts, "initial": initial, "rand_a": rng.u64() >> 1, "rand_b": rng.u64() >> 1,
                 "clock_a": 1500000000 + rng.below(10 ** 8), "clock_b": 1500000000 + rng.below(10 ** 9),
-                "modes": ["build", "dash_n", "repro"]}
+                "modes": ["build", "dash_n", "repro"],
+                # either of the two documented ways to pin the time
+                "time_env": rng.choice(["E2FSPROGS_FAKE_TIME", "SOURCE_DATE_EPOCH"]),
+                "time_value": rng.choice(["1400000000", "1400000000", "0", "1"])}
 
     def argv(self, spec, img, wd):
+
         cfg = dict(spec["cfg"])
         o = spec["opts"]
         e = []
@@ -172,7 +176,9 @@ class C07(Check):
         dev_size = cfg["size_kib"] * 1024 + opts.get("offset", 0)
         if "d" in opts:
             make_tree(Rng(opts["d"]), os.path.join(wd, "tree"))
-        env = {"E2FSPROGS_FAKE_TIME": "1400000000"}
+        tenv = spec.get("time_env", "E2FSPROGS_FAKE_TIME")
+        # (E2FSPROGS_FAKE_TIME=0 means "no fake time", so the small epochs go with SOURCE_DATE_EPOCH only)
+        env = {tenv: spec.get("time_value", "1400000000") if tenv == "SOURCE_DATE_EPOCH" else "1400000000"}
         make_device(img, dev_size, spec["initial"])
         argv = self.argv(spec, img, wd)
         traces = []
@@ -313,6 +319,16 @@ class C07(Check):
         if "repro" in spec["modes"]:
             make_device(img2, dev_size, spec["initial"])
             argv2 = [a if a != img else img2 for a in argv]
+            if "d" in opts and spec.get("time_env") == "SOURCE_DATE_EPOCH":
+                # a rebuilt source tree: same content, later time stamps (all of them past the epoch, so the documented
+                # clamping makes them irrelevant)
+                tree = os.path.join(wd, "tree")
+                later = 1400000000 + 7 + spec["clock_b"] % 100000
+                for dp, dns, fns in os.walk(tree):
+                    for x in dns + fns:
+                        os.utime(os.path.join(dp, x), (later, later + 3), follow_symlinks=False)
+                os.utime(tree, (later, later))
+                o.stats["probe.repro_tree_retouched"] += 1
             r2 = run_sim(argv2, Plan([img2], None, clock=spec["clock_b"], rand_seed=spec["rand_b"]), wd, tag="b", env=env)
             o.evals += 1
             if r2.status == 0:
@@ -323,7 +339,7 @@ class C07(Check):
                     blk = (first - off) // m.bs if first >= 0 else -1
                     diffblocks = sorted(set((i - off) // m.bs for i in range(0, min(len(d2), len(data)), 512) if d2[i:i + 512] != data[i:i + 512]))
                     where = "mmp_block" if (m.has("mmp") and diffblocks == [m.mmp_block]) else "other"
-                    o.violate("repro|bytes_differ|" + where, "two runs with the same -U, hash_seed and E2FSPROGS_FAKE_TIME but a different "
+                    o.violate("repro|bytes_differ|" + where, "two runs with the same -U, hash_seed and %s but a different " % spec.get("time_env", "E2FSPROGS_FAKE_TIME") +
                               "simulated clock (%d vs %d) and random stream differ in %d sector(s), first at byte %d (fs block %d): %s" %
                               (spec["clock_a"], spec["clock_b"], ndiff, first, (first - off) // m.bs if first >= 0 else -1, argvs))
                 else:
